@@ -1549,6 +1549,8 @@ impl<T: PPGEvaluatorStrategy> PPGEvaluator<T> {
                 SignalKind::JobAborted => {
                     let j = &mut self.jobs[node_idx as usize];
                     if !j.state.is_finished() {
+                        // an aborted job is not on offer anymore
+                        self.jobs_ready_to_run.remove(&j.job_id);
                         match j.state {
                             JobState::Ephemeral(_) => {
                                 set_node_state!(
